@@ -240,6 +240,10 @@ def register(lib):
 
     def b_hasattr(I, x, name):
         if isinstance(x, SObj):
+            if x.clsname == '$file' and name in ('download_blob', 'blob_name'):
+                return bool(x.fields.get('blob'))          # the engine's file object also models blob clients
+            if x.clsname == '$file' and name == 'read':
+                return not x.fields.get('blob')
             if name in x.fields:
                 return True
             if x.cls is not None and x.cls.find_method(name) is not None:
